@@ -227,6 +227,50 @@ fn long_run<T: Scalar>(spec: &Spec, st: &mut Stats, sink: &Sink) {
     }
 }
 
+/// one very long run per configuration (140 000 updates: twice past a 16-bit counter): once a value
+/// has been reported, a finite value after every update
+fn very_long_run<T: Scalar>(spec: &Spec, len: usize, st: &mut Stats, sink: &Sink) {
+    if guard(|| build::<T>(spec)).is_err() {
+        st.skipped_configs += 1; // the constructor defines the accepted domain
+        return;
+    }
+    st.configs += 1;
+    let pos = needs_positive(spec);
+    let at = |i: usize| -> f64 {
+        let v = [1.0, 0.0, -1.0, 0.5, -2.0, 3.0, 0.0][i % 7] + ((i / 7) % 3) as f64 * 0.25;
+        if pos { v.abs() + 1.0 } else { v }
+    };
+    let r = guard(|| {
+        let mut v = build::<T>(spec);
+        let mut was = false;
+        for i in 0..len {
+            v.update(T::of(at(i)));
+            match v.last() {
+                Some(x) if !x.is_finite() => return Some((i, "finite", format!("non-finite output {:?} at update {}", x.f(), i + 1))),
+                Some(_) => was = true,
+                None if was => return Some((i, "never-reverts", format!("None at update {} after values had been reported", i + 1))),
+                None => {}
+            }
+        }
+        None
+    });
+    st.transitions += len as u64;
+    st.states += len as u64;
+    st.oracle_evals += len as u64;
+    st.traces += 1;
+    match r {
+        Ok(Some((i, clause, d))) => {
+            let h: Vec<f64> = (0..=i).map(at).collect();
+            sink.push(Violation::new("C08", spec, clause, T::NAME, &h, d));
+        }
+        Ok(None) => {}
+        Err(m) => {
+            let h: Vec<f64> = (0..70).map(at).collect();
+            sink.push(Violation::new("C08", spec, "panicked", T::NAME, &h, format!("{} (somewhere in a {}-update run that starts with this history)", m, len)));
+        }
+    }
+}
+
 pub fn run(ctx: &Ctx) -> CheckOutput {
     let quick = ctx.tier == Tier::Quick;
     let mut jobs: Vec<Job> = vec![];
@@ -277,6 +321,22 @@ pub fn run(ctx: &Ctx) -> CheckOutput {
                 long_run::<f64>(&spec, &mut st, &sink);
                 JobOut { stats: st, viols: sink.take(), samples: vec![] }
             }));
+        }
+    }
+    // very long runs (counters narrower than usize)
+    for n in [2usize, 7] {
+        for e in unary_catalogue() {
+            if !e.has_n && n != 2 {
+                continue;
+            }
+            for spec in variants(e.kind, n, &Spec::echo()) {
+                jobs.push(Box::new(move || {
+                    let mut st = Stats::default();
+                    let sink = Sink::new();
+                    very_long_run::<f64>(&spec, if quick { 140_000 } else { 600_000 }, &mut st, &sink);
+                    JobOut { stats: st, viols: sink.take(), samples: vec![] }
+                }));
+            }
         }
     }
     // two-level chains, windows in {min, min+1}
